@@ -324,6 +324,11 @@ MUTATIONS += [
     dict(id="C07-indexfile-sections-swapped", prop="C07", file="crates/core/src/repofile/indexfile.rs", old="        if delete {\n            self.packs_to_delete.push(p);\n        } else {\n            self.packs.push(p);\n        }", new="        if delete {\n            self.packs.push(p);\n        } else {\n            self.packs_to_delete.push(p);\n        }"),
 ]
 
+MUTATIONS += [
+    dict(id="C19-clean-size-mismatch-kept", prop="C19", file=CAF, old="                && &cached_size != size\n", new="                && &cached_size > size\n"),
+    dict(id="C19-clean-unlisted-files-kept", prop="C19", file=CAF, old="        for id in list_cache.keys() {\n            self.remove(tpe, id)?;\n        }\n        Ok(())", new="        Ok(())"),
+]
+
 HARMLESS = [
     dict(id="H-C05-trees-symlink-continue", prop="C05", file=CK, old="        for node in tree.nodes {\n            match node.node_type {", new="        for node in tree.nodes {\n            if node.node_type == NodeType::Symlink {\n                continue;\n            }\n            match node.node_type {"),
     # independent statements reordered
